@@ -12,6 +12,7 @@ mod util;
 use util::*;
 mod c20;
 mod batch;
+mod c14;
 
 thread_local! {
     pub static LAST_PANIC: std::cell::RefCell<String> = Default::default();
@@ -69,6 +70,8 @@ fn main() {
             "c20_recount" => c20::c20_recount(r),
             "c20_ops" => c20::c20_ops(r),
             "batch" => batch::batch(r),
+            "c14" => c14::c14(r),
+            "c14_votes" => c14::c14_votes(r),
             other => json!({"error": format!("unknown kind {other}")}),
         };
         outs.push(out);
